@@ -414,8 +414,18 @@ def eval_case(P: C.Part, case: Dict[str, Any], ref_cache: Optional[Dict[Any, Any
         an, res = run_entry(obj, fs, entry, backend, opts, freq, L)
     except Exception as ex:
         changed = snapshot(roots) != snap0
+        # a plan / option error that a plain finite noise record of the same size provokes too is not about the input's values or layout
+        ctrl = np.random.default_rng(N).standard_normal((1 if y is None else 2, N))
+        try:
+            run_entry(ctrl[0].copy() if y is None else ctrl, fs, "analyzer.single" if "single" in entry else "analyzer.compute", backend, opts, freq, L)
+            ctrl_raises = False
+        except Exception:
+            ctrl_raises = True
+        if ctrl_raises and not changed:
+            P.hit("options-rejected-for-any-record(" + type(ex).__name__ + ")")
+            return
         P.violations.append(C.Violation(what=f"{where} raised {ex!r}" + (" AND modified the caller's data" if changed else ""),
-                                        signature=dict(sig, subclaim="raises"), replay=rp))
+                                        signature=dict(sig, subclaim="untouched" if changed else "raises"), replay=rp))
         return
     # b. untouched (after construction AND analysis)
     snap1 = snapshot(roots)
@@ -423,23 +433,23 @@ def eval_case(P: C.Part, case: Dict[str, Any], ref_cache: Optional[Dict[Any, Any
         k = [i for i, (u, v) in enumerate(zip(snap0, snap1)) if u != v][0]
         r = roots[k]
         detail = ""
-        if isinstance(r, np.ndarray) and r.dtype.kind == "f":
+        if isinstance(r, np.ndarray) and r.dtype.kind == "f" and r.dtype.itemsize in (4, 8):
             old = np.frombuffer(snap0[k][:r.nbytes], dtype=r.dtype)
             new = np.ascontiguousarray(r).ravel()
-            ch = np.nonzero(old.view(f"u{r.dtype.itemsize}") != new.view(f"u{r.dtype.itemsize}"))[0] if r.dtype.itemsize in (4, 8) else np.array([0])
+            ch = np.nonzero(old.view(f"u{r.dtype.itemsize}") != new.view(f"u{r.dtype.itemsize}"))[0]
             if ch.size:
                 detail = f": flat element {int(ch[0])} was {old[int(ch[0])]!r} and is now {new[int(ch[0])]!r} ({ch.size} element(s) changed)"
         P.violations.append(C.Violation(what=f"{where}: the caller's data was modified{detail}", signature=dict(sig, subclaim="untouched"), replay=rp))
         return
     # a./c. the analyzer's stored record is the zero-filled record in canonical layout
     if an is not None:
-        got1 = np.asarray(an.x1)
+        got1 = np.asarray(an.x1).astype(np.float64)          # the VALUES of the stored record (its dtype is internal)
         bad = None
-        if got1.dtype != np.float64 or got1.shape != xz.shape or got1.tobytes() != xz.tobytes():
+        if got1.shape != xz.shape or got1.tobytes() != xz.tobytes():
             bad = ("x1", got1, xz)
         elif y is not None:
-            got2 = np.asarray(an.x2)
-            if got2.dtype != np.float64 or got2.shape != yz.shape or got2.tobytes() != yz.tobytes():
+            got2 = np.asarray(an.x2).astype(np.float64)
+            if got2.shape != yz.shape or got2.tobytes() != yz.tobytes():
                 bad = ("x2", got2, yz)
         if bad is not None:
             nm, g, e = bad
@@ -518,14 +528,12 @@ def single_params(rng: np.random.Generator, N: int, fs: float) -> Tuple[float, i
 def layout_group(ctx, P: C.Part, gi: int, full: bool) -> None:
     """one record (optionally with non-finite samples) through presentations x backends x entries"""
     rng = ctx.rng
-    cross = bool(gi % 3 != 2)
-    cls = ["real", "f32", "int"][gi % 3 if gi % 7 else 0] if gi % 2 else "real"
+    cross = bool(rng.random() < 0.65)
+    cls = str(rng.choice(["real", "f32", "int"]))
     N = int(rng.choice([8, 9, 33, 64, int(rng.integers(16, 400)), int(rng.integers(100, 700))]))
-    pattern = "none" if (gi % 4 == 0 or cls == "int" and gi % 8 < 4) else str(rng.choice(PATTERNS[1:]))
+    pattern = "none" if rng.random() < 0.3 else str(rng.choice(PATTERNS[1:]))
     x, y = gen_channels(rng, N, cls, cross)
     inject(rng, x, y, pattern)
-    if not cross and pattern in ("channel0", "channel1"):
-        pass
     fs = float(rng.choice([1.0, 2.0, 1000.0, float(rng.uniform(0.1, 1e4))]))
     pres = list(PRES_CROSS if cross else PRES_AUTO)
     if cls in ("f32", "int"):
@@ -857,7 +865,7 @@ def heap_correspondence(ctx, P: C.Part) -> None:
                 is_arr = isinstance(obj, np.ndarray)
                 isfloat = (a.dtype.kind == "f")
                 if path == "nonfinite":
-                    if not isfloat or not is_arr and target is None and a.dtype.kind != "f":
+                    if not isfloat:
                         continue
                     # put one NaN into the caller's object (rebuild lists)
                     if is_arr:
@@ -867,7 +875,7 @@ def heap_correspondence(ctx, P: C.Part) -> None:
                     else:
                         l = np.asarray(obj, dtype=np.float64)
                         l.flat[0] = np.nan
-                        obj = l.tolist()
+                        obj = l.tolist() if isinstance(obj, list) else (tuple(l.tolist()) if l.ndim == 1 else tuple(tuple(r) for r in l.tolist()))
                 desc = {"buf": 0, "contig": bool(a.flags.c_contiguous) if is_arr else False,
                         "fcontig": bool(a.flags.f_contiguous) if is_arr else False,
                         "f64": bool(a.dtype == np.float64), "isArray": is_arr}
@@ -932,9 +940,9 @@ def oracle(ctx, intensive: bool = False, hints: List[Dict[str, Any]] = ()) -> C.
     corpus(ctx, P)
     two_by_two(ctx, P)
     tiny_sizes(ctx, P)
-    synthetic_finite(ctx, P, ctx.scale(60, 600) * mult)
-    n_fin = ctx.scale(len(DEGENERATE), 3 * len(DEGENERATE)) * mult
-    n_lay = ctx.scale(24, 200) * mult
+    synthetic_finite(ctx, P, ctx.scale(200, 2000) * mult)
+    n_fin = ctx.scale(2 * len(DEGENERATE), 10 * len(DEGENERATE)) * mult
+    n_lay = ctx.scale(70, 700) * mult
     # interleave so that a time limit cuts both streams evenly
     gi_f = gi_l = 0
     while (gi_f < n_fin or gi_l < n_lay) and len(P.violations) < MAX_VIOL:
